@@ -138,6 +138,34 @@ pub fn check_case(case: &Case, ctx: &mut Ctx) {
         for (name, fields, emitted_fields) in lists {
             ctx.exec(1);
             let what = format!("{}::{name}", t.ty.path.segments.join("::"));
+            // history: a settings object that has already built a struct, then cloned and changed (an attribute for
+            // all types added / another CompactAs path), must build what fresh settings with that change build
+            if fields.len() == 1 {
+                let sname = if name.chars().next().map(|c| c.is_ascii_digit()).unwrap_or(true) { format!("S{name}") } else { name.clone() };
+                let used = spec.build();
+                let _ = standalone(&registry, &used, &sname, fields);
+                let mut spec_a = spec.clone();
+                spec_a.attrs_all.push("#[later]".into());
+                let mut reused_a = used.clone();
+                reused_a.derives.add_attributes_for_all([crate::settings::parse_attr("#[later]")]);
+                let mut spec_b = spec.clone();
+                spec_b.compact_as = Some("::other::CompactAs".into());
+                let mut reused_b = used.clone();
+                reused_b.compact_as_type_path = Some(crate::settings::parse_path("::other::CompactAs"));
+                for (label, fresh, reused) in [("attribute added after first use", spec_a.build(), reused_a), ("CompactAs path changed after first use", spec_b.build(), reused_b)] {
+                    ctx.exec(2);
+                    let a = standalone(&registry, &fresh, &sname, fields).map(|r| r.map(|c| squash(&c)));
+                    let b_ = standalone(&registry, &reused, &sname, fields).map(|r| r.map(|c| squash(&c)));
+                    if a != b_ {
+                        ctx.violation(
+                            "C18/reused-settings",
+                            format!("{what}: {label}: settings that were used before give {b_:?}, fresh settings give {a:?}"),
+                            case.replay("C18"),
+                            size,
+                        );
+                    }
+                }
+            }
             let replay = || {
                 let mut v = case.replay("C18");
                 v["list"] = json!(what);
